@@ -200,6 +200,9 @@ class Proof:
 
     def find_item(self, id: ItemID) -> ProofItem:
         """Find item at the given id."""
+        if any(i < 0 for i in id.id):
+            # A negative number would index from the end of the proof
+            raise ProofStateException
         try:
             item = self.items[id.id[0]]
             for i in id.id[1:]:
